@@ -95,7 +95,12 @@ class HTTP2Connection(ConnectionInterface):
             )
 
         with self._state_lock:
-            if self._state in (HTTPConnectionState.ACTIVE, HTTPConnectionState.IDLE):
+            # A connection whose keep-alive has expired since it was assigned to
+            # this request may already be being closed by the pool.
+            if (
+                self._state in (HTTPConnectionState.ACTIVE, HTTPConnectionState.IDLE)
+                and not self.has_expired()
+            ):
                 self._request_count += 1
                 self._expire_at = None
                 self._state = HTTPConnectionState.ACTIVE
